@@ -147,3 +147,416 @@ Section WP.
       + rewrite !app_length in Hf. pose_lens. unfold len in *. lia.
   Qed.
 End WP.
+
+(* ------------------------------------------------------------------ generic inversion of a length block *)
+Lemma length_block_inv pre nb pad w bs n :
+  wtruth w -> w_length_block pre nb pad w = Ok (bs, n) ->
+  exists body lb, w = Ok (body, len body) /\ pack_u nb (len body) = Ok lb /\
+                  bs = zeros pre ++ lb ++ body ++ zeros (Z.to_nat (pad_count (len body + len (zeros pre ++ lb)) pad)).
+Proof.
+  intros Hw. unfold w_length_block. destruct w as [[x nx]|] eqn:Ew; [|discriminate]. cbn [bind fst snd].
+  destruct (pack_u nb nx) as [lb|] eqn:Elb; [|discriminate]. cbn [bind w_pad w_bytes fst snd].
+  intros H; inversion H; subst; clear H. pose proof (Hw x nx eq_refl) as ->.
+  exists x, lb. rewrite <- !app_assoc. auto.
+Qed.
+
+Lemma walk_n_w {A B} (wr : A -> W) (rd : stream -> res (B * stream)) (f : A -> B) :
+  (forall a bs n rest, wr a = Ok (bs, n) -> rd (bs ++ rest) = Ok (f a, rest)) ->
+  forall l bs n rest, w_concat (map wr l) = Ok (bs, n) ->
+    walk_n (length l) rd (bs ++ rest) = Ok (map f l, rest).
+Proof.
+  intros Hrt. induction l as [|a l IH]; intros bs n rest H.
+  - apply w_concat_nil_inv in H as [-> _]. reflexivity.
+  - apply w_concat_cons_inv in H as (b1 & n1 & b2 & n2 & Ha & Hl & -> & ->).
+    cbn [length walk_n map]. rewrite <- app_assoc. rewrite (Hrt _ _ _ _ Ha). cbn [bind].
+    rewrite (IH _ _ _ Hl). reflexivity.
+Qed.
+
+Lemma walk_chan_decl_w v nb c bs n rest :
+  len_bytes v = Ok nb -> write_channel_info v c = Ok (bs, n) ->
+  walk_chan_decl nb (bs ++ rest) = Ok (ci_len c, rest).
+Proof.
+  intros Hv H. unfold write_channel_info in H. rewrite Hv in H. cbn [bind] in H.
+  apply w_fmt_inv in H as [H ->]. open_pk H. unfold walk_chan_decl. rewrite <- !app_assoc.
+  rewrite (take_app_n 2 x) by (pose_lens; lia). cbn [bind]. steps. reflexivity.
+Qed.
+
+(* ------------------------------------------------------------------ blending ranges: a multiple of 8 bytes *)
+Lemma range_list_len ch : forall bs n,
+  forallb (fun l => (length l =? 2)%nat) ch = true -> w_concat (map w_range ch) = Ok (bs, n) ->
+  len bs = 8 * len ch.
+Proof.
+  induction ch as [|c ch IH]; intros bs n Hwf H.
+  - apply w_concat_nil_inv in H as [-> _]. reflexivity.
+  - apply w_concat_cons_inv in H as (b1 & n1 & b2 & n2 & Hc & Hl & -> & ->).
+    cbn [forallb] in Hwf. apply andb_prop in Hwf as [Hc2 Hwl].
+    destruct c as [|p [|q [|]]]; try discriminate.
+    destruct (range_rt p q b1 n1 [] Hc) as [_ Hlen].
+    rewrite len_app, len_cons, Hlen, (IH _ _ Hwl Hl). lia.
+Qed.
+Lemma ranges_body_len r body n :
+  wf_ranges r = true ->
+  opt_w (br_comp r) w_range +++ opt_w (br_chan r) (fun ll => w_concat (map w_range ll)) = Ok (body, n) ->
+  len body mod 8 = 0.
+Proof.
+  intros Hwf H. destruct r as [comp chan]. unfold wf_ranges in Hwf. cbn [br_comp br_chan] in *.
+  apply w_seq_inv in H as (b1 & n1 & b2 & n2 & H1 & H2 & -> & _).
+  destruct comp as [c|], chan as [ch|]; try discriminate; cbn [opt_w] in *.
+  - apply andb_prop in Hwf as [Hc Hch]. destruct c as [|p [|q [|]]]; try discriminate.
+    destruct (range_rt p q b1 n1 [] H1) as [_ Hlen].
+    rewrite len_app, Hlen, (range_list_len ch _ _ Hch H2).
+    replace (8 + 8 * len ch) with ((1 + len ch) * 8) by lia. apply Z_mod_mult.
+  - inversion H1; inversion H2; subst. reflexivity.
+Qed.
+
+Section WP2.
+  Variable enc_s : list Z -> res (list Z).
+  Variable dec_s : list Z -> res (list Z).
+
+  (* ---------------------------------------------------------------- a layer record *)
+  Lemma walk_record_w v nb r bs n rest :
+    len_bytes v = Ok nb -> wf_record enc_s dec_s r = true -> write_record enc_s v r = Ok (bs, n) ->
+    walk_record v nb (bs ++ rest) = Ok (lay_record enc_s v r, map ci_len (r_channels r), rest).
+  Proof.
+    intros Hv Hwf H. pose proof H as H0. unfold lay_record. rewrite (blen_ok _ _ _ H0).
+    destruct r as [top lft bottom rgt chans sg blend opacity clip fl mask ranges name blocks].
+    unfold wf_record in Hwf. unfold write_record in H.
+    cbn [r_top r_left r_bottom r_right r_channels r_sig r_blend r_opacity r_clip r_flags r_mask r_ranges r_name r_blocks] in *.
+    apply andb_prop in Hwf as [Hwf Hblocks]. apply andb_prop in Hwf as [Hwf Hname].
+    apply andb_prop in Hwf as [Hwf Hranges]. apply andb_prop in Hwf as [Hwf Hmask].
+    apply andb_prop in Hwf as [Hwf Hclip]. apply andb_prop in Hwf as [Hwf Hblend].
+    apply andb_prop in Hwf as [Hch Hsig].
+    apply w_seq_inv in H as (b1234 & n1234 & b5 & n5 & H & H5 & -> & ->).
+    apply w_seq_inv in H as (b123 & n123 & b4 & n4 & H & H4 & -> & ->).
+    apply w_seq_inv in H as (b12 & n12 & b3 & n3 & H & H3 & -> & ->).
+    apply w_seq_inv in H as (b1 & n1 & b2 & n2 & H1 & H2 & -> & ->).
+    apply w_fmt_inv in H1 as [H1 ->]. apply w_fmt_inv in H3 as [H3 ->]. apply w_fmt_inv in H4 as [H4 ->].
+    open_pk H1. open_pk H3.
+    destruct (length_block_inv 1 4 1 _ b5 n5 (wtruth_record_extra enc_s v _) H5) as (body & lb & Hb & Hlb & Hb5).
+    rewrite pad_count_1 in Hb5. cbn [Z.to_nat zeros repeat] in Hb5. rewrite app_nil_r in Hb5.
+    (* the signed fields are read as unsigned words by the walker: same bytes *)
+    set (full := ((((x ++ x0 ++ x1 ++ x2 ++ x3 ++ []) ++ b2) ++ x4 ++ x5 ++ x6 ++ x7 ++ []) ++ b4) ++ b5).
+    unfold walk_record.
+    assert (Hu : forall (y : list Z) t (r0 : stream), pack_s 4 t = Ok y -> read_u 4 (y ++ r0) = Ok (be_val y, r0)).
+    { intros y t r0 Hy. unfold read_u. rewrite (take_app_n _ y r0 (pack_s_len _ _ _ Hy)). reflexivity. }
+    unfold full. rewrite <- !app_assoc. cbn [app].
+    rewrite (Hu _ _ _ Hp). cbn [bind]. rewrite (Hu _ _ _ Hp0). cbn [bind].
+    rewrite (Hu _ _ _ Hp1). cbn [bind]. rewrite (Hu _ _ _ Hp2). cbn [bind]. steps.
+    rewrite to_nat_len.
+    rewrite (walk_n_w (write_channel_info v) (walk_chan_decl nb) ci_len
+               (fun a bs0 n0 rest0 => walk_chan_decl_w v nb a bs0 n0 rest0 Hv) chans b2 n2 _ H2).
+    cbn [bind]. steps.
+    replace (sg =? w_8BIM) with true.
+    2:{ symmetry. unfold memz, model_record_sigs in Hsig. cbn [existsb] in Hsig. rewrite orb_false_r in Hsig. exact Hsig. }
+    cbn [check bind]. steps.
+    rewrite Hb5. cbn [zeros repeat app].
+    change (0 :: (lb ++ body) ++ rest) with ([0] ++ (lb ++ body) ++ rest).
+    rewrite (take_app_n 1 [0]) by reflexivity. cbn [bind]. rewrite <- app_assoc. steps.
+    rewrite take_app. cbn [bind].
+    (* inside the extra data *)
+    unfold write_record_extra in Hb. cbn [r_mask r_ranges r_name r_blocks] in Hb.
+    apply w_then_pad_inv in Hb as (xe & nxe & Hx & Hbody & _).
+    apply w_seq_inv in Hx as (e123 & m123 & e4 & m4 & Hx & He4 & -> & ->).
+    apply w_seq_inv in Hx as (e12 & m12 & e3 & m3 & Hx & He3 & -> & ->).
+    apply w_seq_inv in Hx as (e1 & m1 & e2 & m2 & He1 & He2 & -> & ->).
+    rewrite Hbody. rewrite <- !app_assoc.
+    set (k := Z.to_nat (pad_count (m1 + m2 + m3 + m4) 2)).
+    assert (Hk : (k < 2)%nat).
+    { unfold k. pose proof (pad_count_range (m1 + m2 + m3 + m4) 2 ltac:(lia)). lia. }
+    assert (Hm : exists ml, skip_block 4 1 (e1 ++ e2 ++ e3 ++ e4 ++ zeros k) = Ok (ml, e2 ++ e3 ++ e4 ++ zeros k) /\
+                            len e1 = 4 + ml).
+    { destruct mask as [m|]; cbn [write_mask_opt] in *.
+      - unfold write_mask in He1.
+        destruct (skip_block_w 4 1 _ e1 m1 (e2 ++ e3 ++ e4 ++ zeros k) ltac:(lia) eq_refl (wtruth_mask_body m) He1)
+          as (mb & _ & Hs & Hl).
+        exists (len mb). split; [exact Hs|]. rewrite Hl, pad_count_1. lia.
+      - apply w_fmt_inv in He1 as [He1 _]. destruct (skip_zero_block e1 (e2 ++ e3 ++ e4 ++ zeros k) He1) as [Hs Hl].
+        exists 0. split; [exact Hs|lia]. }
+    destruct Hm as (ml & Hsm & Hlm). rewrite Hsm. cbn [bind].
+    unfold write_ranges in He2.
+    pose proof (fun hw => skip_block_w 4 1 _ e2 m2 (e3 ++ e4 ++ zeros k) ltac:(lia) eq_refl hw He2) as X.
+    destruct X as (rb & Hrb & Hsr & Hlr).
+    { apply wtruth_seq; apply wtruth_opt; [apply wtruth_range|]. intros. apply wtruth_concat_map, wtruth_range. }
+    rewrite Hsr. cbn [bind]. rewrite (ranges_body_len ranges rb _ Hranges Hrb). cbn [Z.eqb check bind].
+    rewrite (skip_pascal_w enc_s name 4 e3 m3 _ ltac:(lia) He3). cbn [bind].
+    rewrite (walk_lblocks_w v blocks e4 m4 k _ ).
+    2:{ unfold wf_tbs in Hblocks. apply andb_prop in Hblocks as [Hb1 _]. exact Hb1. }
+    2:{ exact He4. }
+    2:{ exact Hk. }
+    2:{ rewrite app_length. lia. }
+    cbn [bind].
+    unfold write_mask_opt, write_ranges. rewrite (blen_ok _ _ _ He1), (blen_ok _ _ _ He2), (blen_ok _ _ _ He3).
+    rewrite pad_count_1 in Hlr.
+    repeat f_equal; rewrite ?len_app, ?len_cons, ?len_app; lia.
+  Qed.
+End WP2.
+
+(* ------------------------------------------------------------------ channel image data *)
+Lemma comp_le3 c : memz c model_compressions = true -> (c <=? 3) = true.
+Proof. unfold memz, model_compressions. cbn [existsb]. lia. Qed.
+
+Lemma walk_channels_w cds : forall bs n rest,
+  forallb wf_cd cds = true -> write_channel_list cds = Ok (bs, n) ->
+  walk_channels (map (fun c => 2 + len (cd_data c)) cds) (bs ++ rest) =
+  Ok (map (fun c => (K_CHANNEL, blen (write_channel_data c))) cds, rest).
+Proof.
+  induction cds as [|c cds IH]; intros bs n rest Hwf H.
+  - apply w_concat_nil_inv in H as [-> _]. reflexivity.
+  - unfold write_channel_list in H.
+    apply w_concat_cons_inv in H as (b1 & n1 & b2 & n2 & Hc & Hl & -> & ->).
+    cbn [forallb] in Hwf. apply andb_prop in Hwf as [Hwc Hwl].
+    pose proof Hc as Hc0. destruct c as [comp data]. unfold write_channel_data in Hc. cbn [cd_comp cd_data] in *.
+    apply w_seq_inv in Hc as (c1 & m1 & c2 & m2 & H1 & H2 & -> & ->).
+    apply w_fmt_inv in H1 as [H1 ->]. apply w_bytes_inv in H2 as [-> ->].
+    cbn [map walk_channels]. cbn [cd_data cd_comp]. pose proof (len_nonneg data).
+    replace (2 <=? 2 + len data) with true by lia. cbn [check bind].
+    rewrite <- !app_assoc. steps.
+    unfold wf_cd in Hwc. cbn [cd_comp] in Hwc. rewrite (comp_le3 _ Hwc). cbn [check bind].
+    replace (2 + len data - 2) with (len data) by lia. rewrite take_app. cbn [bind].
+    rewrite (IH b2 n2 rest Hwl Hl). cbn [bind].
+    rewrite (blen_ok _ _ _ Hc0). pose_lens. rewrite ?len_app. repeat f_equal. lia.
+Qed.
+
+Lemma walk_channels_app l1 : forall l2 s,
+  walk_channels (l1 ++ l2) s =
+  do (a, s1) <- walk_channels l1 s; do (b, s2) <- walk_channels l2 s1; Ok (a ++ b, s2).
+Proof.
+  induction l1 as [|x l1 IH]; intros l2 s.
+  - cbn [app walk_channels bind]. destruct (walk_channels l2 s) as [[b s2]|]; reflexivity.
+  - cbn [app walk_channels]. destruct (check (2 <=? x)); [|reflexivity]. cbn [bind].
+    destruct (read_u 2 s) as [[c s1]|]; [|reflexivity]. cbn [bind].
+    destruct (check (c <=? 3)); [|reflexivity]. cbn [bind].
+    destruct (take (x - 2) s1) as [[d s2]|]; [|reflexivity]. cbn [bind].
+    rewrite IH. destruct (walk_channels l1 s2) as [[aa s3]|]; [|reflexivity]. cbn [bind].
+    destruct (walk_channels l2 s3) as [[bb s4]|]; reflexivity.
+Qed.
+
+Lemma walk_channel_lists_w cs : forall bs n rest,
+  forallb (forallb wf_cd) cs = true -> w_concat (map write_channel_list cs) = Ok (bs, n) ->
+  walk_channels (flat_map (map (fun c => 2 + len (cd_data c))) cs) (bs ++ rest) =
+  Ok (lay_channels cs, rest).
+Proof.
+  induction cs as [|c cs IH]; intros bs n rest Hwf H.
+  - apply w_concat_nil_inv in H as [-> _]. reflexivity.
+  - apply w_concat_cons_inv in H as (b1 & n1 & b2 & n2 & Hc & Hl & -> & ->).
+    cbn [forallb] in Hwf. apply andb_prop in Hwf as [Hw1 Hw2].
+    cbn [flat_map]. rewrite walk_channels_app. rewrite <- app_assoc.
+    rewrite (walk_channels_w c b1 n1 _ Hw1 Hc). cbn [bind].
+    rewrite (IH b2 n2 rest Hw2 Hl). reflexivity.
+Qed.
+
+Lemma upd_ci_lens cis : forall cds, length cis = length cds ->
+  map ci_len (upd_ci cis cds) = map (fun c => 2 + len (cd_data c)) cds.
+Proof.
+  induction cis as [|ci cis IH]; intros [|cd cds] H; try discriminate; [reflexivity|].
+  cbn [upd_ci map ci_len]. f_equal. apply IH. cbn in H. lia.
+Qed.
+
+Section WP3.
+  Variable enc_s : list Z -> res (list Z).
+  Variable dec_s : list Z -> res (list Z).
+
+  Lemma upd_recs_lens rs : forall cs, same_shape rs cs = true ->
+    flat_map (fun r => map ci_len (r_channels r)) (upd_recs rs cs) =
+    flat_map (map (fun c => 2 + len (cd_data c))) cs.
+  Proof.
+    induction rs as [|r rs IH]; intros [|c cs] H; try discriminate; [reflexivity|].
+    cbn [same_shape] in H. apply andb_prop in H as [H1 H2]. apply Nat.eqb_eq in H1.
+    cbn [upd_recs flat_map]. destruct r as [a1 a2 a3 a4 chs sg bl op cl fl mk rg nm bk].
+    cbn [set_channels r_channels] in *. rewrite (upd_ci_lens chs c H1). f_equal. apply IH. exact H2.
+  Qed.
+
+  Lemma walk_records_w v nb rs : forall bs n rest,
+    len_bytes v = Ok nb -> forallb (wf_record enc_s dec_s) rs = true ->
+    w_concat (map (write_record enc_s v) rs) = Ok (bs, n) ->
+    walk_records (length rs) v nb (bs ++ rest) =
+    Ok (flat_map (lay_record enc_s v) rs, flat_map (fun r => map ci_len (r_channels r)) rs, rest).
+  Proof.
+    induction rs as [|r rs IH]; intros bs n rest Hv Hwf H.
+    - apply w_concat_nil_inv in H as [-> _]. reflexivity.
+    - apply w_concat_cons_inv in H as (b1 & n1 & b2 & n2 & Hr & Hl & -> & ->).
+      cbn [forallb] in Hwf. apply andb_prop in Hwf as [Hw1 Hw2].
+      cbn [length walk_records]. rewrite <- app_assoc.
+      rewrite (walk_record_w enc_s dec_s v nb r b1 n1 _ Hv Hw1 Hr). cbn [bind].
+      rewrite (IH b2 n2 rest Hv Hw2 Hl). reflexivity.
+  Qed.
+
+  (* ---------------------------------------------------------------- the layer info body *)
+  Lemma walk_layer_info_w v nb pad li body n :
+    (pad = 1 \/ pad = 2 \/ pad = 4) -> len_bytes v = Ok nb ->
+    wf_li enc_s dec_s li = true -> li_count li <> 0 ->
+    write_li_body enc_s v pad li = Ok (body, n) ->
+    walk_layer_info v nb body =
+    Ok (flat_map (lay_record enc_s v) (opt_list (li_records (li_update li))) ++
+        lay_channels (opt_list (li_chans (li_update li)))) /\ 2 <= len body.
+  Proof.
+    intros Hpad Hv Hwf Hc0 Hb. unfold wf_li in Hwf. destruct li as [count recs chans].
+    cbn [li_count li_records li_chans] in *. destruct (count =? 0) eqn:Ec; [lia|].
+    destruct recs as [rs|]; [|discriminate]. destruct chans as [cs|]; [|discriminate].
+    apply andb_prop in Hwf as [Hwf Hwcd]. apply andb_prop in Hwf as [Hwf Hwrec].
+    apply andb_prop in Hwf as [Hcount Hshape].
+    assert (Hrs : rs <> []).
+    { intros ->. change (len (@nil layer_record)) with 0 in Hcount. lia. }
+    destruct rs as [|r0 rs0]; [congruence|]. destruct cs as [|c0 cs0]; [discriminate|].
+    unfold write_li_body, li_update in Hb. cbn [li_count li_records li_chans] in Hb.
+    change (truthy (Some (upd_recs (r0 :: rs0) (c0 :: cs0)))) with true in Hb.
+    change (truthy (Some (c0 :: cs0))) with true in Hb. cbn [opt_w] in Hb.
+    unfold li_update. cbn [li_count li_records li_chans opt_list].
+    set (rs := r0 :: rs0) in *. set (cs := c0 :: cs0) in *.
+    apply w_then_pad_inv in Hb as (x & nx & Hx & Hbody & _).
+    apply w_seq_inv in Hx as (b12 & n12 & b3 & n3 & Hx & H3 & -> & ->).
+    apply w_seq_inv in Hx as (b1 & n1 & b2 & n2 & H1 & H2 & -> & ->).
+    apply w_fmt_inv in H1 as [H1 ->].
+    split; [|rewrite Hbody; len_lia].
+    set (k := Z.to_nat (pad_count (len b1 + n2 + n3) pad)) in *.
+    assert (Hk : Z.of_nat k < 4).
+    { unfold k. destruct Hpad as [-> | [-> | ->]];
+        match goal with |- context [pad_count ?a ?b] => pose proof (pad_count_range a b ltac:(lia)) end; lia. }
+    unfold walk_layer_info. rewrite Hbody. rewrite <- !app_assoc. steps.
+    replace (Z.to_nat (Z.abs count)) with (length (upd_recs rs cs)).
+    2:{ rewrite upd_recs_length. apply Z.eqb_eq in Hcount. rewrite <- Hcount. symmetry. apply to_nat_len. }
+    rewrite (walk_records_w v nb (upd_recs rs cs) b2 n2 _ Hv (upd_recs_wf enc_s dec_s rs cs Hwrec) H2).
+    cbn [bind fst snd]. rewrite (upd_recs_lens rs cs Hshape).
+    rewrite (walk_channel_lists_w cs b3 n3 _ Hwcd H3). cbn [bind].
+    rewrite len_zeros. replace (Z.of_nat k <? 4) with true by lia. rewrite all_zero_zeros. reflexivity.
+  Qed.
+End WP3.
+
+Section WP4.
+  Variable enc_s : list Z -> res (list Z).
+  Variable dec_s : list Z -> res (list Z).
+
+  (* ---------------------------------------------------------------- the section body *)
+  Lemma walk_lami_w v nb pad l body n restlen :
+    (pad = 1 \/ pad = 2 \/ pad = 4) -> len_bytes v = Ok nb ->
+    wf_lami enc_s dec_s v l restlen = true ->
+    write_lami_body enc_s v pad l = Ok (body, n) ->
+    walk_lami v nb body = Ok (lay_lami enc_s v pad l).
+  Proof.
+    intros Hpad Hv Hwf Hb. destruct l as [info g blocks]. unfold wf_lami in Hwf. unfold write_lami_body in Hb.
+    unfold lay_lami. cbn [la_info la_glmi la_blocks] in *.
+    apply w_seq_inv in Hb as (b12 & n12 & b3 & n3 & Hb & H3 & -> & _).
+    apply w_seq_inv in Hb as (b1 & n1 & b2 & n2 & H1 & H2 & -> & _).
+    destruct info as [li|]; cbn [opt_w] in H1.
+    2:{ apply andb_prop in Hwf as [Hg Hbk]. destruct g; [discriminate|]. destruct blocks; [discriminate|].
+        cbn [opt_w truthy] in H2, H3. inversion H1; inversion H2; inversion H3; subst. reflexivity. }
+    apply andb_prop in Hwf as [Hwf Hguard]. apply andb_prop in Hwf as [Hwf Hblocks].
+    apply andb_prop in Hwf as [Hli Hg].
+    pose proof (len_bytes_cases v nb Hv) as Hnb.
+    pose proof H1 as H10. unfold write_layer_info in H1. rewrite Hv in H1. cbn [bind] in H1.
+    unfold walk_lami, lay_li. rewrite (blen_ok _ _ _ H10).
+    (* the global part: what follows the layer info *)
+    assert (Hrest :
+               (if len (b2 ++ b3) =? 0 then Ok []
+                else do (gl, s3) <- skip_block 4 1 (b2 ++ b3);
+                     do bl <- walk_gblocks (S (length s3)) v s3; Ok ((K_GLMI, 4 + gl) :: bl)) =
+               Ok (match g with
+                   | None => []
+                   | Some g0 => (K_GLMI, blen (write_glmi g0)) ::
+                                map (fun b => (K_GTB, blen (write_tagged_block v 4 b))) (opt_list blocks)
+                   end)).
+    { destruct g as [g0|]; cbn [opt_w] in H2.
+      - pose proof H2 as H20. unfold write_glmi in H2.
+        pose proof (fun hw => skip_block_w 4 1 _ b2 n2 b3 ltac:(lia) eq_refl hw H2) as X.
+        destruct X as (gb & _ & Hs & Hl).
+        { destruct (g_overlay g0); [|apply wtruth_nil]. apply wtruth_then_pad, wtruth_seq; apply wtruth_fmt. }
+        rewrite pad_count_1 in Hl.
+        assert (Hne : (len (b2 ++ b3) =? 0) = false).
+        { rewrite len_app. pose_nonneg. pose proof (len_nonneg gb). lia. }
+        rewrite Hne, Hs. cbn [bind]. rewrite (blen_ok _ _ _ H20).
+        assert (Htb : write_tagged_blocks v 4 (opt_list blocks) = Ok (b3, n3) /\ forallb wf_tb (opt_list blocks) = true).
+        { destruct blocks as [[|t bl]|]; cbn [truthy opt_w opt_list] in *.
+          - inversion H3; subst. split; reflexivity.
+          - split; [exact H3|]. apply andb_prop in Hblocks as [Hblocks _]. apply andb_prop in Hblocks as [Hblocks _].
+            unfold wf_tbs in Hblocks. apply andb_prop in Hblocks as [Hblocks _]. exact Hblocks.
+          - inversion H3; subst. split; reflexivity. }
+        destruct Htb as [Hwb Hwfb].
+        rewrite (walk_gblocks_w v (opt_list blocks) b3 n3 _ Hwfb Hwb) by lia. cbn [bind].
+        do 3 f_equal. lia.
+      - inversion H2; subst. cbn [app].
+        assert (b3 = []).
+        { destruct blocks as [[|t bl']|]; cbn [truthy opt_w is_some nonempty orb negb andb] in *.
+          - inversion H3; reflexivity.
+          - apply andb_prop in Hblocks as [Hblocks _]. apply andb_prop in Hblocks as [_ Hblocks]. discriminate.
+          - inversion H3; reflexivity. }
+        subst b3. reflexivity. }
+    destruct (li_count li =? 0) eqn:Ec.
+    - (* short form: a zero length field *)
+      apply w_fmt_inv in H1 as [H1 _].
+      assert (Hne : (len ((b1 ++ b2) ++ b3) =? 0) = false) by len_lia.
+      rewrite Hne. rewrite <- !app_assoc. steps.
+      unfold take. cbn [Z.leb Z.compare andb]. pose proof (len_nonneg (b2 ++ b3)).
+      replace (0 <=? len (b2 ++ b3)) with true by lia. cbn [Z.to_nat firstn skipn bind Z.eqb].
+      rewrite Hrest. cbn [bind app]. pose_lens. do 3 f_equal. lia.
+    - destruct (length_block_inv 0 nb 1 _ b1 n1 (wtruth_li_body enc_s v pad li) H1) as (lbody & lb & Hlb & Hplb & Hb1).
+      rewrite pad_count_1 in Hb1. cbn [Z.to_nat zeros repeat app] in Hb1. rewrite app_nil_r in Hb1.
+      destruct (walk_layer_info_w enc_s dec_s v nb pad li lbody _ Hpad Hv Hli ltac:(lia) Hlb) as [Hwli Hl2].
+      assert (Hne : (len ((b1 ++ b2) ++ b3) =? 0) = false) by (rewrite Hb1; len_lia).
+      rewrite Hne. rewrite Hb1. rewrite <- !app_assoc. steps.
+      rewrite take_app. cbn [bind].
+      replace (len lbody =? 0) with false by lia.
+      rewrite Hwli. cbn [bind]. rewrite Hrest. cbn [bind].
+      pose_lens. rewrite len_app. rewrite <- app_assoc. do 2 f_equal. f_equal. lia.
+  Qed.
+
+  (* ---------------------------------------------------------------- the whole file *)
+  Theorem walk_written pad d bs n :
+    (pad = 1 \/ pad = 2 \/ pad = 4) -> wf_psd enc_s dec_s d = true ->
+    write_psd enc_s pad d = Ok (bs, n) ->
+    walk bs = Ok (layout_of enc_s pad d).
+  Proof.
+    intros Hpad Hwf H. destruct d as [h cmd rs l img]. unfold wf_psd in Hwf. unfold write_psd in H.
+    unfold layout_of. cbn [p_header p_cmd p_res p_lami p_img] in *.
+    apply andb_prop in Hwf as [Hwf Himg]. apply andb_prop in Hwf as [Hwf Hl].
+    apply andb_prop in Hwf as [Hh Hrs].
+    apply w_seq_inv in H as (b1234 & n1234 & b5 & n5 & H & H5 & -> & ->).
+    apply w_seq_inv in H as (b123 & n123 & b4 & n4 & H & H4 & -> & ->).
+    apply w_seq_inv in H as (b12 & n12 & b3 & n3 & H & H3 & -> & ->).
+    apply w_seq_inv in H as (b1 & n1 & b2 & n2 & H1 & H2 & -> & ->).
+    rewrite (blen_ok _ _ _ H1), (blen_ok _ _ _ H2), (blen_ok _ _ _ H3), (blen_ok _ _ _ H4), (blen_ok _ _ _ H5).
+    (* header *)
+    destruct h as [sg ver ch hh ww dp md]. unfold write_header in H1.
+    cbn [h_sig h_version h_channels h_height h_width h_depth h_mode] in *.
+    apply w_fmt_inv in H1 as [H1 _]. open_pk H1. inv_ok.
+    unfold header_valid in Hh. cbn [h_sig h_version h_channels h_height h_width h_depth h_mode] in Hh.
+    repeat match goal with Hx : _ && _ = true |- _ => apply andb_prop in Hx; destruct Hx end.
+    assert (Hver : ver = 1 \/ ver = 2).
+    { match goal with Hx : memz ver model_versions = true |- _ => unfold memz, model_versions in Hx; cbn [existsb] in Hx end. lia. }
+    set (hb := x ++ x0 ++ zeros 6 ++ x2 ++ x3 ++ x4 ++ x5 ++ x6 ++ []).
+    assert (Hlen1 : len hb = 26) by (unfold hb; rewrite !len_app, len_zeros; pose_lens; change (len (@nil Z)) with 0; lia).
+    unfold walk. rewrite <- !app_assoc. fold hb.
+    replace (hb ++ b2 ++ b3 ++ b4 ++ b5) with (hb ++ (b2 ++ b3 ++ b4 ++ b5)) by reflexivity.
+    rewrite (take_app_n 26 hb _ Hlen1). cbn [bind]. unfold hb at 1. steps.
+    replace (sg =? w_8BPS) with true by (symmetry; assumption).
+    replace ((ver =? 1) || (ver =? 2)) with true by lia.
+    change (firstn 6 (zeros 6 ++ x2 ++ x3 ++ x4 ++ x5 ++ x6 ++ [])) with (zeros 6).
+    rewrite all_zero_zeros. cbn [andb check bind].
+    (* color mode data *)
+    unfold write_cmd in H2.
+    destruct (skip_block_w 4 1 _ b2 n2 (b3 ++ b4 ++ b5) ltac:(lia) eq_refl (wtruth_bytes cmd) H2) as (cb & _ & Hs2 & Hl2).
+    rewrite Hs2. cbn [bind]. rewrite pad_count_1 in Hl2.
+    (* image resources *)
+    unfold write_resources in H3.
+    destruct (length_block_inv 0 4 1 _ b3 n3 (wtruth_concat_map _ rs (wtruth_resource enc_s)) H3) as (rbody & rlb & Hrb & Hprl & Hb3).
+    rewrite pad_count_1 in Hb3. cbn [Z.to_nat zeros repeat app] in Hb3. rewrite app_nil_r in Hb3.
+    rewrite Hb3. rewrite <- !app_assoc. steps. rewrite take_app. cbn [bind].
+    rewrite (walk_resources_w enc_s rs rbody _ _ Hrb) by lia. cbn [bind].
+    (* layer and mask information *)
+    assert (Hv : len_bytes ver = Ok (if ver =? 1 then 4%nat else 8%nat)).
+    { destruct Hver as [-> | ->]; reflexivity. }
+    set (nb := if ver =? 1 then 4%nat else 8%nat) in *.
+    unfold write_lami in H4. rewrite Hv in H4. cbn [bind] in H4.
+    destruct (length_block_inv 0 nb 1 _ b4 n4 (wtruth_lami_body enc_s ver pad l) H4) as (lbody & llb & Hlb & Hpll & Hb4).
+    rewrite pad_count_1 in Hb4. cbn [Z.to_nat zeros repeat app] in Hb4. rewrite app_nil_r in Hb4.
+    rewrite Hb4. rewrite <- !app_assoc. steps. rewrite take_app. cbn [bind].
+    rewrite (walk_lami_w ver nb pad l lbody _ _ Hpad Hv Hl Hlb). cbn [bind].
+    (* image data *)
+    unfold write_image_data, write_channel_data in H5.
+    apply w_seq_inv in H5 as (c1 & m1 & c2 & m2 & H51 & H52 & -> & ->).
+    apply w_fmt_inv in H51 as [H51 _]. apply w_bytes_inv in H52 as [-> _].
+    rewrite <- ?app_assoc. steps.
+    unfold wf_cd in Himg. rewrite (comp_le3 _ Himg). cbn [check bind].
+    pose_lens. rewrite !len_app.
+    repeat (f_equal; try lia).
+  Qed.
+End WP4.
